@@ -21,6 +21,7 @@ CONSTANTS
  MsgA <- MC_MsgA
  MsgB <- MC_MsgB
  CommDeltas <- MC_CommDeltas
+ CoordPkps <- MC_CoordPkps
  EMIT <- MC_EMIT
 INIT Init
 NEXT Next
